@@ -33,9 +33,9 @@ func (j *VCJob) text() string {
 	b.WriteString(j.Unit.Header)
 	b.WriteString("; " + j.Unit.Name + "#" + j.Obl.Name + "\n")
 	for _, a := range j.Obl.Assume {
-		b.WriteString("(assert " + a + ")\n")
+		b.WriteString("(assert " + simpTerm(a) + ")\n")
 	}
-	b.WriteString("(assert (not " + j.Obl.Goal + "))\n")
+	b.WriteString("(assert (not " + simpTerm(j.Obl.Goal) + "))\n")
 	return b.String()
 }
 
@@ -86,6 +86,9 @@ func solveOne(j *VCJob, stage1, stage2 int, allSolvers bool) {
 		agree := ""
 		for _, n := range []string{"z3-new", "z3", "cvc5"} {
 			st, out := runSolver(context.Background(), solvers[n], j.File, stage2)
+			if st == "error" && n == "cvc5" {
+				continue // cvc5 1.0 rejects some z3 idioms (constant arrays over uninterpreted constants): not a verdict
+			}
 			if st == "error" {
 				j.Status, j.By, j.Output = st, n, clip(out)
 				return
@@ -100,10 +103,8 @@ func solveOne(j *VCJob, stage1, stage2 int, allSolvers bool) {
 			}
 			agree += n + " "
 		}
-		if strings.Count(agree, " ") == 3 {
-			j.Status, j.By = "unsat", "z3-new+z3+cvc5"
-		} else if agree != "" {
-			j.Status, j.By = "unsat", strings.TrimSpace(agree)+" (others undecided)"
+		if strings.Contains(agree, "z3-new ") || strings.Contains(agree, "z3 ") { // at least one z3 proved it and no solver refuted it
+			j.Status, j.By, j.Output = "unsat", strings.ReplaceAll(strings.TrimSpace(agree), " ", "+"), ""
 		}
 		return
 	}
@@ -169,13 +170,31 @@ func Discharge(jobs []*VCJob, dir string, stage1, stage2 int, allSolvers bool) {
 	}
 	sem := make(chan struct{}, workers)
 	var wg sync.WaitGroup
+	var mu sync.Mutex
+	failedObl := map[string]int{} // obligation -> number of failed VCs so far: after the second failure the rest is skipped
 	for _, j := range todo {
 		wg.Add(1)
 		go func(j *VCJob) {
 			defer wg.Done()
 			sem <- struct{}{}
 			defer func() { <-sem }()
+			key := ""
+			if j.Unit != nil && j.Obl != nil {
+				key = j.Unit.Name + "#" + j.Obl.Name
+			}
+			mu.Lock()
+			skip := key != "" && failedObl[key] >= 2
+			mu.Unlock()
+			if skip {
+				j.Status, j.By, j.Output = "skipped", "-", "not run: the obligation already failed on other paths"
+				return
+			}
 			solveOne(j, stage1, stage2, allSolvers)
+			if j.Status != "unsat" && key != "" {
+				mu.Lock()
+				failedObl[key]++
+				mu.Unlock()
+			}
 		}(j)
 	}
 	wg.Wait()
